@@ -10,7 +10,7 @@ for f in sorted(glob.glob(os.path.join(ROOT, "evidence", "C*.json"))):
         e["property_id"], e["level"], len(fns), c["discharged"], c["obligations"],
         ", ".join("%s" % k["name"] for k in c.get("kani", [])) or "-",
         len(c.get("bounded", [])), c.get("bounded_cases", 0),
-        "; ".join(k["id"].split(":")[1] for k in c.get("known_findings", [])) or "-"))
+        "; ".join(sorted(set(k["id"].split(":")[1] for k in c.get("known_findings", [])))) or "-"))
 print("| property | level | E1 functions | clauses discharged | E3 harnesses | E2 contracts | E2 cases (quick) | known findings re-exhibited |")
 print("|---|---|---|---|---|---|---|---|")
 print("\n".join(rows))
